@@ -4,13 +4,15 @@
     [_x_from_y] functions): executable model.
 
     The supplied functions are oracles [V -> V -> tri] (they may answer
-    NotImplemented); [same_cls x y] stands for [y.__class__ is x.__class__].
+    NotImplemented, or raise: [EX]); every method also answers the trace of the
+    calls made to them; [same_cls x y] stands for [y.__class__ is x.__class__].
     A wrapper object is an identity number plus the wrapped value. *)
 
 From Coq Require Import List Bool Arith ZArith.
 Import ListNotations.
 
-Inductive tri := TT | FF | NI.          (* True, False, NotImplemented *)
+Inductive tri := TT | FF | NI | EX.     (* True, False, NotImplemented; EX: the supplied
+                                           function raised and the exception propagates *)
 Inductive cop := OEq | ONe | OLt | OLe | OGt | OGe.
 
 Record cfg := {
@@ -19,7 +21,7 @@ Record cfg := {
 }.
 
 Definition of_bool (b : bool) : tri := if b then TT else FF.
-Definition tri_not (t : tri) : tri := match t with TT => FF | FF => TT | NI => NI end.
+Definition tri_not (t : tri) : tri := match t with TT => FF | FF => TT | NI => NI | EX => EX end.
 
 Definition b2n (b : bool) : nat := if b then 1 else 0.
 Definition num_order_functions (c : cfg) : nat :=
@@ -57,77 +59,85 @@ Definition fn (o : cop) : V -> V -> tri :=
   | OLt => flt | OLe => fle | OGt => fgt | OGe => fge
   end.
 
+(** Every method answers a result AND the trace of the calls it made to the
+    supplied functions, in order: (which function, first argument, second argument). *)
+Definition trace := list (cop * V * V).
+Definition ret := (tri * trace)%type.
+
 (** [_is_comparable_to]: all requirements; the only one is [_check_same_type]. *)
 Definition is_comparable_to (c : cfg) (a b : wobj) : bool :=
   if same_type c then same_cls (w_val a) (w_val b) else true.
 
-(** [_make_operator(name, func)] *)
-Definition make_operator (f : V -> V -> tri) (c : cfg) (a b : wobj) : tri :=
-  if negb (is_comparable_to c a b) then NI
-  else f (w_val a) (w_val b).           (* a NotImplemented result is passed on *)
+(** [_make_operator(name, func)]: the guard comes first; the function is not
+    consulted at all when the operands are not comparable. *)
+Definition make_operator (o : cop) (f : V -> V -> tri) (c : cfg) (a b : wobj) : ret :=
+  if negb (is_comparable_to c a b) then (NI, [])
+  else (f (w_val a) (w_val b), [(o, w_val a, w_val b)]).   (* NotImplemented / an exception pass on *)
 
 (** [a.__eq__(b)]: the made operator, or [object.__eq__]. *)
-Definition meth_eq (c : cfg) (a b : wobj) : tri :=
-  if has_eq c then make_operator feq c a b
-  else if w_id a =? w_id b then TT else NI.
+Definition meth_eq (c : cfg) (a b : wobj) : ret :=
+  if has_eq c then make_operator OEq feq c a b
+  else (if w_id a =? w_id b then TT else NI, []).
 
 (** [a.__ne__(b)]: attrs' [__ne__] and [object.__ne__] both negate [__eq__]
     and pass NotImplemented on. *)
-Definition meth_ne (c : cfg) (a b : wobj) : tri :=
-  match meth_eq c a b with NI => NI | r => tri_not r end.
+Definition meth_ne (c : cfg) (a b : wobj) : ret :=
+  let '(r, t) := meth_eq c a b in (tri_not r, t).
 
 (** The operators [a == b] / [a != b] between two instances of the class:
     reflected method, then identity. *)
-Definition op_eq (c : cfg) (a b : wobj) : tri :=
-  match meth_eq c a b with
-  | NI => match meth_eq c b a with
-          | NI => of_bool (w_id a =? w_id b)
-          | r => r
-          end
-  | r => r
+Definition op_eq (c : cfg) (a b : wobj) : ret :=
+  let '(r1, t1) := meth_eq c a b in
+  match r1 with
+  | NI => let '(r2, t2) := meth_eq c b a in
+          (match r2 with NI => of_bool (w_id a =? w_id b) | r => r end, t1 ++ t2)
+  | r => (r, t1)
   end.
 
-Definition op_ne (c : cfg) (a b : wobj) : tri :=
-  match meth_ne c a b with
-  | NI => match meth_ne c b a with
-          | NI => of_bool (negb (w_id a =? w_id b))
-          | r => r
-          end
-  | r => r
+Definition op_ne (c : cfg) (a b : wobj) : ret :=
+  let '(r1, t1) := meth_ne c a b in
+  match r1 with
+  | NI => let '(r2, t2) := meth_ne c b a in
+          (match r2 with NI => of_bool (negb (w_id a =? w_id b)) | r => r end, t1 ++ t2)
+  | r => (r, t1)
   end.
 
-(** functools' [_convert] table: [derive root op op_result (self == other) (self != other)].
-    [x and y] / [x or y] / [not x] on True/False. *)
-Definition derive (r o : cop) (res eqv nev : tri) : tri :=
+(** functools' [_convert] table: [derive root op op_result (self == other) (self != other)]
+    answers the value and the FURTHER calls made ([and]/[or] are lazy: [==]/[!=]
+    is evaluated only when the root result does not decide). *)
+Definition derive (r o : cop) (res : tri) (eqv nev : ret) : ret :=
   match res with
-  | NI => NI
+  | NI => (NI, [])
+  | EX => (EX, [])
   | _ =>
     match r, o with
-    | OLt, OGt => match res with TT => FF | _ => nev end          (* not a<b and a!=b *)
-    | OLt, OLe => match res with TT => TT | _ => eqv end          (* a<b or a==b *)
-    | OLt, OGe => tri_not res                                     (* not a<b *)
-    | OLe, OGe => match res with FF => TT | _ => eqv end          (* not a<=b or a==b *)
-    | OLe, OLt => match res with TT => nev | _ => FF end          (* a<=b and a!=b *)
-    | OLe, OGt => tri_not res                                     (* not a<=b *)
-    | OGt, OLt => match res with TT => FF | _ => nev end          (* not a>b and a!=b *)
-    | OGt, OGe => match res with TT => TT | _ => eqv end          (* a>b or a==b *)
-    | OGt, OLe => tri_not res                                     (* not a>b *)
-    | OGe, OLe => match res with FF => TT | _ => eqv end          (* not a>=b or a==b *)
-    | OGe, OGt => match res with TT => nev | _ => FF end          (* a>=b and a!=b *)
-    | OGe, OLt => tri_not res                                     (* not a>=b *)
-    | _, _ => NI                                                  (* not in the table *)
+    | OLt, OGt => match res with TT => (FF, []) | _ => nev end          (* not a<b and a!=b *)
+    | OLt, OLe => match res with TT => (TT, []) | _ => eqv end          (* a<b or a==b *)
+    | OLt, OGe => (tri_not res, [])                                     (* not a<b *)
+    | OLe, OGe => match res with FF => (TT, []) | _ => eqv end          (* not a<=b or a==b *)
+    | OLe, OLt => match res with TT => nev | _ => (FF, []) end          (* a<=b and a!=b *)
+    | OLe, OGt => (tri_not res, [])                                     (* not a<=b *)
+    | OGt, OLt => match res with TT => (FF, []) | _ => nev end          (* not a>b and a!=b *)
+    | OGt, OGe => match res with TT => (TT, []) | _ => eqv end          (* a>b or a==b *)
+    | OGt, OLe => (tri_not res, [])                                     (* not a>b *)
+    | OGe, OLe => match res with FF => (TT, []) | _ => eqv end          (* not a>=b or a==b *)
+    | OGe, OGt => match res with TT => nev | _ => (FF, []) end          (* a>=b and a!=b *)
+    | OGe, OLt => (tri_not res, [])                                     (* not a>=b *)
+    | _, _ => (NI, [])                                                  (* not in the table *)
     end
   end.
 
 (** [a.__lt__(b)] etc.: supplied operator, else derived by total_ordering when
     it was applied (never over a supplied one), else [object]'s. *)
-Definition meth_order (c : cfg) (o : cop) (a b : wobj) : tri :=
-  if supplied c o then make_operator (fn o) c a b
+Definition meth_order (c : cfg) (o : cop) (a b : wobj) : ret :=
+  if supplied c o then make_operator o (fn o) c a b
   else if wants_total_ordering c then
-    derive (root c) o (make_operator (fn (root c)) c a b) (op_eq c a b) (op_ne c a b)
-  else NI.
+    let '(res, t) := make_operator (root c) (fn (root c)) c a b in
+    let '(v, t') := derive (root c) o res (op_eq c a b) (op_ne c a b) in
+    (v, t ++ t')
+  else (NI, []).
 
-Definition meth (c : cfg) (o : cop) (a b : wobj) : tri :=
+Definition meth (c : cfg) (o : cop) (a b : wobj) : ret :=
   match o with
   | OEq => meth_eq c a b
   | ONe => meth_ne c a b
@@ -136,9 +146,9 @@ Definition meth (c : cfg) (o : cop) (a b : wobj) : tri :=
 
 Definition all_ops : list cop := [OEq; ONe; OLt; OLe; OGt; OGe].
 
-(** What the harness observes: ValueError at construction ([None]) or the six
-    dunder results. *)
-Definition cmp_observe (c : cfg) (a b : wobj) : option (list tri) :=
+(** What the harness observes: ValueError at construction ([None]) or, for each
+    of the six dunder calls, the result and the call log. *)
+Definition cmp_observe (c : cfg) (a b : wobj) : option (list ret) :=
   if construct_ok c then Some (map (fun o => meth c o a b) all_ops) else None.
 
 End Cmp.
@@ -160,7 +170,9 @@ Definition honest_c (o : cop) (c : comparison) : bool :=
 
 Definition honest (o : cop) (x y : Z) : bool := honest_c o (x ?= y)%Z.
 
-Inductive beh := BHonest | BConst (t : tri) | BFlip | BNeg.
+(** [BPartial]: honest on two values of one class, raises on anything else (a
+    function written for one value type only - what require_same_type protects). *)
+Inductive beh := BHonest | BConst (t : tri) | BFlip | BNeg | BPartial.
 
 Definition interp (b : beh) (o : cop) (x y : cval) : tri :=
   match b with
@@ -168,11 +180,13 @@ Definition interp (b : beh) (o : cop) (x y : cval) : tri :=
   | BConst t => t
   | BFlip => of_bool (honest o (cv_rank y) (cv_rank x))
   | BNeg => of_bool (negb (honest o (cv_rank x) (cv_rank y)))
+  | BPartial => if cv_cls x =? cv_cls y then of_bool (honest o (cv_rank x) (cv_rank y)) else EX
   end.
 
 Record behs := { b_eq : beh; b_lt : beh; b_le : beh; b_gt : beh; b_ge : beh }.
 
-Definition cmp_case (c : cfg) (bs : behs) (a b : nat * cval) : option (list tri) :=
+Definition cmp_case (c : cfg) (bs : behs) (a b : nat * cval)
+  : option (list (tri * list (cop * cval * cval))) :=
   cmp_observe cval (interp (b_eq bs) OEq) (interp (b_lt bs) OLt) (interp (b_le bs) OLe)
     (interp (b_gt bs) OGt) (interp (b_ge bs) OGe)
     (fun x y => cv_cls x =? cv_cls y) c a b.
